@@ -88,7 +88,7 @@ def gen_histories(chk):
     hists = []      # (id, header, toks, tag)
 
     def add(g, toks, tag):
-        hists.append((f'h{len(hists)}', g.header(), toks, tag))
+        hists.append((f'h{len(hists)}', g.header(), L.normalise_tokens(g.kind, toks), tag))
 
     # ---- seed-independent exhaustive core
     quick = chk.tier != 'thorough'
@@ -287,7 +287,10 @@ def coq_of_tokens(echo):
             v = f'(VSeq {f[3][1:]})' if f[3][0] == 'q' else f'(VScalar {z(f[3][1:])})'
             out.append(f'OSetIdx {f[1]} {ix(f[2])} {v}')
         elif o == 'op':
-            out.append(f'OOp {f[1]} ({fn(f[2])}) {b(f[3])} {b(f[4])}')
+            if f[3] == '1' and f[4] == '2':
+                out.append(f'OOpRefused {f[1]} None')
+            else:
+                out.append(f'OOp {f[1]} ({fn(f[2])}) {b(f[3])} {b(f[4])}')
         elif o == 'cat':
             ps = [p.split(',') for p in f[1].split(';')] if f[1] else []
             out.append('OConcat [' + ';'.join(f'({p[0]}%nat, {z(p[1])})' for p in ps) + ']')
@@ -304,6 +307,9 @@ def coq_of_tokens(echo):
         elif o == 'gett':
             out.append(f'OGetCols {f[1]} {ix(f[2])}')
         elif o == 'opq':
+            if f[4] == '1' and f[5] == '2':
+                out.append(f'OOpRefused {f[1]} (Some {f[3]})')
+                continue
             g2 = {'add': 'BAdd', 'sub': 'BSub', 'mul': 'BMul', 'lt': 'BLt', 'eq': 'BEq', 'or': 'BOr', 'and': 'BAnd',
                   'xor': 'BXor'}[f[2]]
             out.append(f'OOpSeq {f[1]} {g2} {f[3]} {b(f[4])} {b(f[5])}')
@@ -368,6 +374,10 @@ def run(chk: Check):
     chk.trusted.append('NumPy fact made explicit model state: ndarray.resize(refcheck=True) raises iff another live '
                        'object references the array (here: another live sequence object, or a local slice in '
                        'extend(self)); checked on every history through the memory-owner relation of the arrays the objects hand out')
+    chk.trusted.append('NumPy fact decided by the harness and handed to the model as a token flag (the model has no dtype '
+                       'component): an in-place operator is refused (TypeError class) iff its result dtype cannot be '
+                       "cast 'same_kind' to the dtype of the target's buffer, or a bitwise operator meets a float; the "
+                       'direct predicate decides the same from the dtype kinds the implementation reports')
     chk.build()
     chk.run_probes()
     chk.extra['unproved_statements'] = UNPROVED
@@ -457,7 +467,10 @@ def replay(chk, obj):
             return 1 if r else 0
         print('nothing to replay:', obj.get('predicate'))
         return 1
-    impl, crashed = run_children([('r0', c['header'], c['ops'])], jobs=1)
+    ops = c['ops']
+    if c['header'] != 'T':
+        ops = L.normalise_tokens(c['header'].split()[-1], ops)
+    impl, crashed = run_children([('r0', c['header'], ops)], jobs=1)
     if crashed:
         print('child crashed:', crashed)
         return 1
